@@ -178,6 +178,9 @@ pub mod weak;
 #[cfg(feature = "cleaners")]
 pub mod cleaners;
 
+#[cfg(feature = "verif-hooks")]
+pub mod verif_hooks;
+
 #[cfg(feature = "derive")]
 pub use derives::{Finalize, Trace};
 
